@@ -35,7 +35,7 @@ type c15Case struct {
 	Seed     int64   `json:"seed"`
 	Main     string  `json:"main"`     // good missing dir unreadable malformed empty
 	Personal string  `json:"personal"` // absent good malformed dir unreadable
-	Backup   string  `json:"backup"`   // absent good
+	Backup   string  `json:"backup"`   // absent good empty emptylist stale
 	Cfg      c15Cfg  `json:"cfg"`
 	MainN    int     `json:"main_n"`
 	PersN    int     `json:"pers_n"`
@@ -49,6 +49,8 @@ type c15Case struct {
 	Delays    []int64  `json:"delays"` // calculateDelay(1..4) as the code computes it (ns)
 	Searched  bool     `json:"searched"`
 	ChildFail string   `json:"child_fail,omitempty"`
+	Embedded  [][]int  `json:"embedded"` // the built-in fallback lists, read from the built code (hook VerifBuiltins)
+	Minimal   [][]int  `json:"minimal"`
 }
 
 const c15Good = `- command: "git status"
@@ -83,6 +85,10 @@ func c15Place(path, kind, content string) {
 		os.WriteFile(path, []byte("- command: [unclosed\n  : : :\n\t- x"), 0o644)
 	case "empty":
 		os.WriteFile(path, []byte(""), 0o644)
+	case "emptylist":
+		os.WriteFile(path, []byte("[]\n"), 0o644)
+	case "stale":
+		os.WriteFile(path, []byte("- command: \"old-backup-only\"\n  description: \"stale\"\n  keywords: [\"old\"]\n  pipeline: false\n"), 0o644)
 	}
 }
 
@@ -90,10 +96,10 @@ func c15Gen(r *rand.Rand, id int) c15Case {
 	c := c15Case{ID: id}
 	c.Main = []string{"good", "good", "missing", "dir", "unreadable", "malformed", "empty"}[r.Intn(7)]
 	c.Personal = []string{"absent", "absent", "good", "malformed", "dir", "unreadable"}[r.Intn(6)]
-	c.Backup = []string{"absent", "good"}[r.Intn(2)]
+	c.Backup = []string{"absent", "absent", "good", "empty", "emptylist", "stale", "malformed", "dir"}[r.Intn(8)]
 	c.Cfg = c15Cfg{MaxAttempts: []int{-1, 0, 1, 2, 3, 3, 4}[r.Intn(7)], BaseNS: []int64{0, 1000000, 2000000}[r.Intn(3)],
 		MaxNS: []int64{1000000, 3000000, 5000000000, 0}[r.Intn(4)]}
-	f := [][2]int64{{1, 1}, {2, 1}, {4, 1}, {3, 2}, {1, 2}}[r.Intn(5)]
+	f := [][2]int64{{1, 1}, {2, 1}, {4, 1}, {3, 2}, {1, 2}, {16, 1}, {1024, 1}, {5, 4}}[r.Intn(8)]
 	c.Cfg.FactorNum, c.Cfg.FactorDen = f[0], f[1]
 	return c
 }
@@ -133,7 +139,7 @@ func runC15Child(seed int64, n int, replay string, e *emitter) {
 			out.Searched = true
 		}()
 	}
-	for k := 1; k <= 4; k++ {
+	for _, k := range []int{1, 2, 3, 4, 5, 8, 13, 20, 39, 40, 64, 65, 100, 600, 1100} { // = delay_ks of Check/C15.v
 		out.Delays = append(out.Delays, int64(recovery.VerifCalculateDelay(dr, k)))
 	}
 	e.emit(out)
@@ -183,6 +189,8 @@ func c15Run(c *c15Case, dir string) {
 		c.ChildFail = "no child output"
 	}
 	c.Nil, c.Err, c.DBN, c.First, c.Delays, c.Searched = out.Nil, out.Err, out.DBN, intsList(out.First), out.Delays, out.Searched
+	emb, mini := recovery.VerifBuiltins(recovery.NewDatabaseRecovery(recovery.RetryConfig{MaxAttempts: 1}))
+	c.Embedded, c.Minimal = intsList(emb), intsList(mini)
 	// attempts = openat calls on the main file (one per LoadDatabase(main) call)
 	f, err := os.Open(trace)
 	if err == nil {
